@@ -7,6 +7,7 @@ import (
 	"flag"
 	"fmt"
 	"os"
+	"strings"
 	"sync"
 	"time"
 
@@ -59,6 +60,9 @@ func errClass(err error) string {
 	var rej *hsms.RejectError
 	if errors.As(err, &rej) {
 		return fmt.Sprintf("reject:%d", rej.Reason)
+	}
+	if s := err.Error(); strings.Contains(s, "write tcp") || strings.Contains(s, "broken pipe") || strings.Contains(s, "use of closed") || strings.Contains(s, "connection reset") {
+		return "write-error"
 	}
 	return "other:" + err.Error()
 }
